@@ -5,6 +5,7 @@ model was written against.
 import ArvVerif.Gen.FactsC16
 import ArvVerif.Model.C16
 import ArvVerif.Model.C16_RunQueue
+import ArvVerif.Model.C16_Pool
 namespace ArvVerif.Tie.C16
 open ArvVerif.Facts.C16
 
@@ -140,6 +141,25 @@ theorem tie_poolCreate : poolCreateConds =
      "if err != nil",
      "if ok && err.IsQuotaError()"] ∧
     poolCreateReturns = ["false", "false", "false", "", "true"] := ⟨rfl, rfl⟩
+
+/-- what `RQ.realPool.create` (Model/C16_Pool.lean) was written against: within `Create` the only
+synchronous change of the blocking state is `wp.creating[secret] = …` (an entry is `delete`d, and
+`atQuotaUntil` set, only in the goroutine that waits for the cloud's answer); the throttle is consulted
+with `Error()` and set with `ErrorUntil(…, time.Now().Add(5*time.Second), …)`; `throttle.Error` drops an
+error once `time.Now().After(thr.until)` -/
+theorem tie_poolCreateThrottle :
+    poolCreateAssigns =
+      ["wp.creating[secret] = createCall{time: now, instanceType: it}",
+       "wp.atQuotaErr = err",
+       "wp.atQuotaUntil = time.Now().Add(quotaErrorTTL)"] ∧
+    poolCreateThrottleCalls =
+      ["time.Now().Before", "time.Now", "wp.instanceSet.throttleCreate.Error",
+       "wp.instanceSet.throttleCreate.ErrorUntil", "time.Now().Add", "time.Now", "time.Now", "delete",
+       "time.Now().Add", "time.Now", "time.AfterFunc", "wp.instanceSet.throttleCreate.CheckRateLimitError"] ∧
+    poolCreateInts = [0, 5] ∧ (5 : Nat) * 1000 = ArvVerif.C16.RQ.createOpsHoldoff ∧
+    throttleErrorConds = ["if thr.err != nil && time.Now().After(thr.until)"] ∧
+    throttleErrorAssigns = ["thr.err = nil"] ∧ throttleErrorReturns = ["thr.err"] ∧
+    throttleErrorUntilAssigns = ["thr.err, thr.until = err, until"] := ⟨rfl, rfl, rfl, rfl, rfl, rfl, rfl, rfl⟩
 
 /-- AtQuota is a time window -/
 theorem tie_poolAtQuota : poolAtQuotaReturns = ["time.Now().Before(wp.atQuotaUntil)"] := rfl
